@@ -51,6 +51,17 @@ def free_vars(t, bound=()):
     return out
 
 
+def rename_vars(t, mapping):
+    """The term with variables (aliases and bound variables alike) renamed."""
+    if not isinstance(t, tuple):
+        return t
+    if t and t[0] == 'var':
+        return ('var', mapping.get(t[1], t[1]))
+    if t and t[0] == 'quant':
+        return ('quant', t[1], mapping.get(t[2], t[2]), rename_vars(t[3], mapping), rename_vars(t[4], mapping))
+    return tuple(rename_vars(x, mapping) for x in t)
+
+
 def mentions(t, alias):
     if t[0] == 'var':
         return t[1] == alias
@@ -97,7 +108,7 @@ def check_term(t, r=None):
         lin = absyn.lift(obj)
         t_in = _cond(lin)
         fv_in = free_vars(t_in)
-        for alias in ('A', 'B', 'C'):
+        for alias in getattr(check_term, 'aliases', ('A', 'B', 'C')):
             if r is not None:
                 r.count('transitions')
             try:
@@ -220,6 +231,17 @@ def run(unit):
                         r.count('evaluations')
                         r.count('states')
                         probs += [(w, pk, d) for pk, d in check_term(w, r)]
+        if n <= 4 and (mentions(t, 'A') or mentions(t, 'B')):
+            # name family: aliases and bound variables whose names are suffixes / prefixes of one another
+            for mapping, aliases in (({'A': 'AB'}, ('B', 'AB', 'A')), ({'A': 'BA'}, ('B', 'BA', 'A')), ({'B': 'xB', 'i': 'iA'}, ('A', 'B', 'xB', 'x')), ({'A': 'i_A', 'i': 'A_i'}, ('A', 'i_A', 'i'))):
+                w = rename_vars(t, mapping)
+                check_term.aliases = aliases
+                try:
+                    r.count('evaluations')
+                    r.count('states')
+                    probs += [(w, pk + ' [names that are suffixes / prefixes of one another]', d) for pk, d in check_term(w, r)]
+                finally:
+                    del check_term.aliases
         seen = set()
         for tt, pk, detail in probs:
             if (pk, tt is t) in seen:
@@ -241,7 +263,7 @@ def replay(w):
 def describe(tier):
     b = bounds(tier)
     return {
-        'rule': f"every boolean term over atoms p q r (x > 0) (y = 1) True False @A.p (@A.x > 0) @B.p with not/and/or/implies/iff and forall/exists @i over xs, {{0,1}}, [0 to 1], @A.xs (bodies may use (@i > 0), (@A.x > @i)) with <= {b['nodes']} nodes; every term with <= 4 nodes that mentions @A also under chains of 2, 3 and 4 negations; for terms with <= 4 nodes the copies made by replace_var_with_this(A) / replace_this_with_var(C) of the already refactored object are refactored too (histories of depth 2); each refactored for aliases A, B and the absent C, as expression and as predicate; x every valuation (truth tables, numbers -1 0 1, arrays [] [0] [0,1]). nontrivial = terms mentioning @A.",
+        'rule': f"every boolean term over atoms p q r (x > 0) (y = 1) True False @A.p (@A.x > 0) @B.p with not/and/or/implies/iff and forall/exists @i over xs, {{0,1}}, [0 to 1], @A.xs (bodies may use (@i > 0), (@A.x > @i)) with <= {b['nodes']} nodes; every term with <= 4 nodes that mentions @A also under chains of 2, 3 and 4 negations; for terms with <= 4 nodes the copies made by replace_var_with_this(A) / replace_this_with_var(C) of the already refactored object are refactored too (histories of depth 2); each refactored for aliases A, B and the absent C, as expression and as predicate; x every valuation (truth tables, numbers -1 0 1, arrays [] [0] [0,1]). Terms with <= 4 nodes that mention an alias are also refactored under 4 renamings that make alias and bound-variable names suffixes / prefixes of one another (AB / B, BA / B, xB and iA, i_A and A_i), for each of the related names. nontrivial = terms mentioning @A.",
         'bounds': b,
         'exhaustive': True,
         'assumptions': ['reference evaluator; strict connectives'],
